@@ -203,7 +203,7 @@ READ_CALLS = ("open", "openat", "openat2", "read", "pread64", "getdents64", "sta
               "access", "faccessat", "faccessat2", "readlink", "readlinkat")
 
 
-def read_calls(tr, steps, roots):
+def read_calls(tr, steps, roots, top="/nonexistent"):
     """the non-mutating calls (open for reading, read, getdents, stat family) of the main thread that touch a path at or
     below one of `roots`, each with the number of mutating steps made before it (= index of the next step).
     Needs a trace taken with set="all-fs"."""
@@ -217,7 +217,8 @@ def read_calls(tr, steps, roots):
         if c.pid != tr.main_pid or c.k is None or c.mutating or c.name not in READ_CALLS:
             continue
         p = c.path
-        if isinstance(p, str) and any(hist.under(p, r) for r in roots):
+        # at or below a root, or one of its ancestors inside the work directory (clean_dirs_up, purge_object, create_dir_all)
+        if isinstance(p, str) and any(hist.under(p, r) or (p != top and hist.under(p, top) and hist.under(r, p)) for r in roots):
             out.append({"point": c.point, "name": c.name, "path": p, "next": cur, "call": c})
     return out
 
@@ -562,7 +563,7 @@ def record(tpl, env, set_=None):
         raise common.BuildError("recording run of %s failed: rc=%s %s %r" % (scn.name, tr.rc, tr.stderr[-300:], tr.parse_errors[:2]))
     r.trace = tr
     r.steps = steps_of(tr)
-    r.reads = read_calls(tr, r.steps, [main_root(w, scn), staged_root(w, scn)]) if set_ == "all-fs" else []
+    r.reads = read_calls(tr, r.steps, [main_root(w, scn), staged_root(w, scn)], top=w) if set_ == "all-fs" else []
     r.new_view = obj_view(main_root(w, scn))
     r.errs, r.vrc = validate_both(w, scn, env)
     if r.alg is None:
